@@ -19,6 +19,9 @@ type bucketFaults struct {
 	listErr gcerrors.ErrorCode // gcerrors.OK = no fault
 	readErr map[string]gcerrors.ErrorCode
 	noMD5   bool
+	// swap: the object is replaced by this content right after the first request for it (its attributes or its content,
+	// whichever comes first) was answered - somebody uploads a new version while heimdall fetches the object
+	swap map[string][]byte
 }
 
 func (f *bucketFaults) set(list gcerrors.ErrorCode, read map[string]gcerrors.ErrorCode) {
@@ -61,6 +64,18 @@ func (d *proxyDriver) faultFor(key string) error {
 	return nil
 }
 
+// swapNow replaces the object if a replacement is registered for it (once).
+func (d *proxyDriver) swapNow(ctx context.Context, key string) {
+	d.f.mu.Lock()
+	content, ok := d.f.swap[key]
+	delete(d.f.swap, key)
+	d.f.mu.Unlock()
+
+	if ok {
+		_ = d.inner.WriteAll(ctx, key, content, &blob.WriterOptions{ContentType: "application/yaml"})
+	}
+}
+
 func (d *proxyDriver) Attributes(ctx context.Context, key string) (*driver.Attributes, error) {
 	if err := d.faultFor(key); err != nil {
 		return nil, err
@@ -70,6 +85,8 @@ func (d *proxyDriver) Attributes(ctx context.Context, key string) (*driver.Attri
 	if err != nil {
 		return nil, err
 	}
+
+	d.swapNow(ctx, key)
 
 	out := &driver.Attributes{ContentType: a.ContentType, ModTime: a.ModTime, Size: a.Size, MD5: a.MD5, ETag: a.ETag, AsFunc: func(any) bool { return false }}
 
@@ -140,6 +157,9 @@ func (d *proxyDriver) NewRangeReader(ctx context.Context, key string, offset, le
 	if err != nil {
 		return nil, err
 	}
+
+	// (the reader keeps reading the version it was opened for)
+	d.swapNow(ctx, key)
 
 	return proxyReader{r}, nil
 }
